@@ -42,6 +42,7 @@ def explore(g, tid=0, max_events=4000, mode='auto', with_conn=True, seed=0):
             return
         nxt = [c for c in d.get_ordered_next_choice_nodes() if c in b.chinv and c in d.graph.nodes]
         if not nxt and with_conn:
+            finals.append((d, pid))
             # all selection choices are resolved: the documented point at which connection choices are resolved
             for cn in [c for c in d.graph.nodes if c in b.ccinv]:
                 if len(ev) >= max_events:
@@ -72,9 +73,19 @@ def explore(g, tid=0, max_events=4000, mode='auto', with_conn=True, seed=0):
                     seen[st2] = qid
                 rec(d2, qid, st2)
 
+    finals = []
     st0 = frozenset((a, k) for a, k in ev[0]['auto'])
     seen[st0] = 0
     rec(d0, 0, st0)
+    # interleaved use: with every scenario derived by now, each selection-final object is asked again (grouping
+    # connectors keep their degrees on node objects shared by all of them)
+    if with_conn and len(finals) > 1 and any(nd['t'] == 'grp' for nd in g['nodes']):
+        for d, pid in finals[:-1]:
+            for cn in [c for c in d.graph.nodes if c in b.ccinv]:
+                if len(ev) >= max_events:
+                    trunc[0] = True
+                    break
+                ev.append(conn_event(b, d, pid, cn, counter, rng))
     return {'tid': tid, 'g': g, 'ev': ev, 'trunc': trunc[0], 'mode': mode}
 
 
